@@ -16,6 +16,7 @@ CONSTANTS
   Mods = {"m", "n"}
   Segs = {"a", "A", ""}
   SegsAll = {"a"}
+  NearSpread = 5
   MaxSegs = 2
 INVARIANTS TypeOK C30_Confined C30_Distinct Storable
 CHECK_DEADLOCK FALSE
